@@ -69,9 +69,9 @@ func (u *Unit) tableCall(st *State, instr ssa.Instruction, common *ssa.CallCommo
 	u.note(fmt.Sprintf("%s: call through a %s value resolved over the %d repository functions of that signature whose value is taken", u.key, types.TypeString(common.Value.Type(), u.eng.qual), len(cands)))
 	return rs, true
 }
-func (u *Unit) lockEffects(st *State, c *Contract, name string, args []Term, pos token.Pos) {}
+func (u *Unit) lockEffects(st *State, c *Contract, name string, args []Term, pos token.Pos)      {}
 func (u *Unit) guardedAccess(st *State, x *ssa.FieldAddr, structT types.Type, field int, r Term) {}
-func (u *Unit) guardedMapAccess(st *State, m ssa.Value, pos token.Pos, write bool)                {}
-func (u *Unit) initGhost(st *State)                                                               {}
-func (u *Unit) ghostAt(st *State, b *ssa.BasicBlock, where string)                                {}
-func (u *Unit) checkLockBalance(st *State, pos token.Pos)                                         {}
+func (u *Unit) guardedMapAccess(st *State, m ssa.Value, pos token.Pos, write bool)               {}
+func (u *Unit) initGhost(st *State)                                                              {}
+func (u *Unit) ghostAt(st *State, b *ssa.BasicBlock, where string)                               {}
+func (u *Unit) checkLockBalance(st *State, pos token.Pos)                                        {}
